@@ -803,14 +803,10 @@ class BaseSection(base.Sectionable):
         lst = childlist
         old_index = lst.index(self)
 
-        # 2 cases: insert after old_index / insert before
-        if new_index > old_index:
-            new_index += 1
+        # Take the object out first and insert it at the new position afterwards;
+        # this is also correct for negative (from the end) and too large indices.
+        del lst[old_index]
         lst.insert(new_index, self)
-        if new_index < old_index:
-            del lst[old_index + 1]
-        else:
-            del lst[old_index]
         return old_index
 
     def reorder(self, new_index):
